@@ -106,10 +106,13 @@ HeaderSet == CASE Headers = "plain" -> {<<Imp("m2", "", "none")>>}
 \* ids: type = ItemBase + i, constructor T = +100, constructor V = +200, field a = +300, field b = +400
 \* The second constructor is spelled V or - state variable v2 - `Ok`, like a constructor of Gleam's prelude: a module may
 \* declare such a constructor, and its own declaration shadows the prelude's in the whole module.
-CtorT == 100  CtorU == 200  FieldA == 300  FieldB == 400
+\* State variable v3: the type has a THIRD variant `Z ( a : Int )`.  Then b is no longer common to all variants: the b of
+\* the first and the b of the second variant are two declarations (FieldB, FieldB2) that merely share a spelling - a label
+\* `b:` denotes the field of the constructor it is written under - while a stays one declaration.
+CtorT == 100  CtorU == 200  FieldA == 300  FieldB == 400  FieldB2 == 500  CtorZ == 600
 
-VARIABLES todo, out, frames, pending, budget, imps, items, v2, phase
-vars == <<todo, out, frames, pending, budget, imps, items, v2, phase>>
+VARIABLES todo, out, frames, pending, budget, imps, items, v2, v3, phase
+vars == <<todo, out, frames, pending, budget, imps, items, v2, v3, phase>>
 
 \* grammar symbols: s = symbol, x = string argument, n = integer argument
 Sym(s, x, n) == [s |-> s, x |-> x, n |-> n]
@@ -154,7 +157,8 @@ TypeResolve(name) == IF name = "T" /\ HasType THEN TypeBase
                      ELSE 0
 \* constructors are values of the module scope; the type itself is in the type namespace only
 CtorName(x) == IF x = "2" THEN v2 ELSE x      \* grammar symbols call the second constructor "2"
-CtorId(name) == IF ~HasType THEN 0 ELSE IF name = "T" THEN TypeBase + CtorT ELSE IF name = v2 THEN TypeBase + CtorU ELSE 0
+CtorId(name) == IF ~HasType THEN 0 ELSE IF name = "T" THEN TypeBase + CtorT ELSE IF name = v2 THEN TypeBase + CtorU
+                ELSE IF name = "Z" /\ v3 THEN TypeBase + CtorZ ELSE 0
 ModuleValue(name) == IF ItemId(name) # 0 THEN ItemId(name) ELSE IF CtorId(name) # 0 THEN CtorId(name) ELSE Imported(name)
 
 Resolve(name) == IF Local(name) # 0 THEN Local(name) ELSE ModuleValue(name)
@@ -162,7 +166,7 @@ Resolve(name) == IF Local(name) # 0 THEN Local(name) ELSE ModuleValue(name)
 \* `c` is written whether or not it is imported (unbound otherwise); `d` only when some import declares it
 RefNames == Names \cup {"c"} \cup (IF UnqAt("unqalias") # 0 THEN {"d"} ELSE {})
 \* (a local may be spelled like a module accessor - q, r, m2 - see shadow_acc_*: then it is a visible value name)
-Visible  == {n \in Names \cup SpareNames \cup {"c", "d", "T", "V", "Ok", "A", "q", "r", "m2"} : Resolve(n) # 0}
+Visible  == {n \in Names \cup SpareNames \cup {"c", "d", "T", "V", "Ok", "Z", "A", "q", "r", "m2"} : Resolve(n) # 0}
 \* module accessors in scope for `name.`: every import brings its module in under the last segment of its path, `as q`
 \* under the alias ONLY; AccMod: the module an accessor stands for
 Accessors == {AccOf(imps[k]) : k \in 1..Len(imps)}
@@ -215,8 +219,8 @@ Prods(h) ==
            \* the module's own record type (only when it is declared)
            P(1, "own_ctor_labelled", <<NT("NEEDTYPE"), OPEN("EXPR_CALL"), Sym("OWNCTOR", "T", 0), T("("), Sym("LABEL", "b", 0), T(":"), NT("EXPR"), T(","),
                                       Sym("LABEL", "a", 0), T(":"), NT("EXPR"), T(")"), CLOSE>>),
-           P(1, "own_ctor2_labelled", <<NT("NEEDTYPE"), OPEN("EXPR_CALL"), Sym("OWNCTOR", "2", 0), T("("), Sym("LABEL", "a", 0), T(":"), NT("EXPR"), T(","),
-                                       Sym("LABEL", "b", 0), T(":"), NT("EXPR"), T(")"), CLOSE>>),
+           P(1, "own_ctor2_labelled", <<NT("NEEDTYPE"), OPEN("EXPR_CALL"), Sym("OWNCTOR", "2", 0), T("("), Sym("LABEL2", "a", 0), T(":"), NT("EXPR"), T(","),
+                                       Sym("LABEL2", "b", 0), T(":"), NT("EXPR"), T(")"), CLOSE>>),
            \* a field of a record whose type is declared in a module this one need not import: sub/m2's mk() returns m2's R
            P(1, "indirect_field", <<NT("NEEDSUB"), OPEN("FIELD_ACCESS"), OPEN("EXPR_CALL"), OPEN("FIELD_ACCESS"), NT("SUBMK"), CLOSE, T("("), T(")"), CLOSE,
                                     T("."), Sym("LIBFIELD", "f", 0), CLOSE>>),
@@ -256,7 +260,7 @@ Prods(h) ==
            P(1, "pctor_labelled", <<NT("NEEDACC"), NT("PQCTORA"), T("("), Sym("LIBLABEL", "a", 1), T(":"), NT("PAT"), T(")")>>),
            P(1, "pconcat", <<T("\"s\""), T("<>"), NT("BINDER")>>),
            P(1, "p_own_ctor", <<NT("NEEDTYPE"), Sym("OWNCTOR", "T", 1), T("("), Sym("LABEL", "a", 1), T(":"), NT("PAT"), T(","), T(".."), T(")")>>),
-           P(1, "p_own_ctor2", <<NT("NEEDTYPE"), Sym("OWNCTOR", "2", 1), T("("), Sym("LABEL", "b", 1), T(":"), NT("PAT"), T(","), T(".."), T(")")>>),
+           P(1, "p_own_ctor2", <<NT("NEEDTYPE"), Sym("OWNCTOR", "2", 1), T("("), Sym("LABEL2", "b", 1), T(":"), NT("PAT"), T(","), T(".."), T(")")>>),
            P(1, "p_own_ctor_pos", <<NT("NEEDTYPE"), Sym("OWNCTOR", "T", 1), T("("), NT("PAT"), T(","), NT("PAT"), T(")")>>) }
     [] OTHER -> {}
 
@@ -266,7 +270,7 @@ Tok(t, r, tg, vis) == [t |-> t, r |-> r, tg |-> tg, vis |-> vis]
 Plain(t) == Tok(t, "kw", 0, {})
 
 Init == /\ todo = <<>> /\ out = <<>> /\ frames = <<>> /\ pending = <<>> /\ budget = Budget
-        /\ imps = <<>> /\ items = <<>> /\ v2 = "V" /\ phase = "header"
+        /\ imps = <<>> /\ items = <<>> /\ v2 = "V" /\ v3 = FALSE /\ phase = "header"
 
 Pick(S) == IF Sim /\ S # {} THEN {RandomElement(S)} ELSE S
 
@@ -299,6 +303,7 @@ Header == /\ phase = "header"
                /\ imps' = f /\ items' = l
                \* the spelling of the second constructor of the module's own type (if there is one)
                /\ \E v \in Pick(IF \E i \in 1..Len(l) : l[i].k = "type" THEN {"V", "Ok"} \ Masked ELSE {"V"}) : v2' = v
+               /\ \E w \in Pick(IF (\E i \in 1..Len(l) : l[i].k = "type") /\ Allowed("variant3") THEN {FALSE, TRUE} ELSE {FALSE}) : v3' = w
                /\ todo' = [i \in 1..Len(l) |-> Sym("ITEM", l[i].k, i)]
                /\ out' = IF Len(f) = 0 THEN <<>> ELSE IF Len(f) = 1 THEN ImportToks(f[1]) ELSE ImportToks(f[1]) \o ImportToks(f[2])
                /\ phase' = "body"
@@ -325,8 +330,9 @@ Step ==
                         ELSE IF h.x = "type"
                         THEN <<OPEN("ADT"), T("type"), Sym("ITEMNAME", "T", h.n), T("{"),
                                Sym("DECL", "T", CtorT), T("("), Sym("DECL", "a", FieldA), T(":"), T("Int"), T(","), Sym("DECL", "b", FieldB), T(":"), T("Int"), T(")"),
-                               Sym("DECL", "2", CtorU), T("("), Sym("FIELDALT", "a", FieldA), T(":"), T("Int"), T(","), Sym("FIELDALT", "b", FieldB), T(":"), T("Int"), T(")"),
-                               T("}"), CLOSE>>
+                               Sym("DECL", "2", CtorU), T("("), Sym("FIELDALT", "a", FieldA), T(":"), T("Int"), T(","), Sym("FIELDALT", "b", FieldB), T(":"), T("Int"), T(")")>>
+                               \o (IF v3 THEN <<Sym("DECL", "Z", CtorZ), T("("), Sym("FIELDALT", "a", FieldA), T(":"), T("Int"), T(")")>> ELSE <<>>)
+                               \o <<T("}"), CLOSE>>
                         ELSE IF h.x = "alias"
                         THEN <<OPEN("TYPE_ALIAS"), T("type"), Sym("ITEMNAME", "B", h.n), T("="), Sym("OWNTYPEREF", "", 0), CLOSE>>
                         ELSE <<OPEN("MODULE_CONSTANT"), T("const"), Sym("ITEMNAME", items[h.n].n, h.n), T("="), T("1"), CLOSE>>) \o Rest
@@ -342,7 +348,9 @@ Step ==
        [] h.s = "NEEDTYPE" -> /\ HasType /\ todo' = Rest /\ UNCHANGED <<out, frames, pending, budget>>
        [] h.s = "DECL" -> /\ Emit(Tok(CtorName(h.x), "def", TypeBase + h.n, {})) /\ todo' = Rest /\ UNCHANGED <<frames, pending, budget>>
        [] h.s = "OWNTYPEREF" -> /\ Emit(Tok("T", "tref", TypeBase, {})) /\ todo' = Rest /\ UNCHANGED <<frames, pending, budget>>
-       [] h.s = "FIELDALT" -> /\ Emit(Tok(h.x, "fieldalt", TypeBase + h.n, {})) /\ todo' = Rest /\ UNCHANGED <<frames, pending, budget>>
+       \* a field name in a later variant: the common field's declaration is the first variant's - unless (v3) b is not common
+       [] h.s = "FIELDALT" -> /\ Emit(IF v3 /\ h.x = "b" THEN Tok("b", "def", TypeBase + FieldB2, {}) ELSE Tok(h.x, "fieldalt", TypeBase + h.n, {}))
+                              /\ todo' = Rest /\ UNCHANGED <<frames, pending, budget>>
        \* a type annotation: the module's own type T, or the library's type of the same name through the accessor
        [] h.s = "TYPEREF" ->
             \* an annotation: m1's own type T, an imported type (A, or m2.T under its alias L), the library's T through the
@@ -392,6 +400,9 @@ Step ==
                              /\ todo' = Rest /\ UNCHANGED <<frames, pending, budget>>
        [] h.s = "LABEL" -> /\ Emit(Tok(h.x, IF h.n = 0 THEN "label" ELSE "plabel", TypeBase + (IF h.x = "a" THEN FieldA ELSE FieldB), {}))
                            /\ todo' = Rest /\ UNCHANGED <<frames, pending, budget>>
+       \* a label written under the second constructor
+       [] h.s = "LABEL2" -> /\ Emit(Tok(h.x, IF h.n = 0 THEN "label" ELSE "plabel", TypeBase + (IF h.x = "a" THEN FieldA ELSE IF v3 THEN FieldB2 ELSE FieldB), {}))
+                            /\ todo' = Rest /\ UNCHANGED <<frames, pending, budget>>
        [] h.s = "FIELDREF" -> /\ Emit(Tok(h.x, "field", TypeBase + (IF h.x = "a" THEN FieldA ELSE FieldB), {}))
                               /\ todo' = Rest /\ UNCHANGED <<frames, pending, budget>>
        [] h.s = "MARK" -> /\ frames' = Append(frames, Mark) /\ todo' = Rest /\ UNCHANGED <<out, pending, budget>>
@@ -438,7 +449,7 @@ Step ==
                /\ todo' = p.r \o Rest
                /\ budget' = budget - p.c
                /\ UNCHANGED <<out, frames, pending>>
-  /\ UNCHANGED <<imps, items, v2, phase>>
+  /\ UNCHANGED <<imps, items, v2, v3, phase>>
 
 Done == phase = "body" /\ todo = <<>>
 
@@ -449,6 +460,7 @@ Done == phase = "body" /\ todo = <<>>
 \* texts); the other library module is never touched.
 LibDeclName == <<"a", "c", "A", "C", "k", "T", "A", "a", "R", "R", "f", "mk">>      \* by offset: values a c A C k, type T, type A, field a, constructor R, type R, field f, function mk
 DeclName(d) == IF d >= LibBase("m2") THEN LibDeclName[d % 1000]
+               ELSE IF d > ItemBase + CtorZ THEN "Z"
                ELSE IF d > ItemBase + FieldB THEN "b" ELSE IF d > ItemBase + FieldA THEN "a"
                ELSE IF d > ItemBase + CtorU THEN v2 ELSE IF d > ItemBase + CtorT THEN "T"
                ELSE IF d > ItemBase THEN items[d - ItemBase].n ELSE out[d].t
@@ -464,17 +476,17 @@ RenameComplete == Done => \A d \in DeclIds : \A i \in 1..Len(out) :
                      (out[i].tg = d /\ out[i].t = DeclName(d) /\ out[i].r # "impalias" /\ out[i].r # "modref") => i \in RenameSet(d)
 
 \* fields offered after `value.` for a value of m1's own type: the fields common to all its variants, in label order
-CommonFields == IF HasType THEN <<"a", "b">> ELSE <<>>
+CommonFields == IF ~HasType THEN <<>> ELSE IF v3 THEN <<"a">> ELSE <<"a", "b">>
 \* what is offered after `acc.` for every accessor in scope
 AccTable == {[acc |-> a, mod |-> AccMod(a), base |-> LibBase(AccMod(a)), members |-> LibMembers(AccMod(a))] : a \in Accessors}
-Program == [imp |-> HeaderLabel, imps |-> imps, items |-> items, v2 |-> v2, out |-> out, ren |-> Renames, mods |-> VisibleModules, accs |-> AccTable,
+Program == [imp |-> HeaderLabel, imps |-> imps, items |-> items, v2 |-> v2, v3 |-> v3, out |-> out, ren |-> Renames, mods |-> VisibleModules, accs |-> AccTable,
             fields |-> CommonFields]
 
 \* simulation mode: print the finished program and start over
 Finish == /\ Sim /\ Done
           /\ PrintT(<<"CASE", ToJson(Program)>>)
           /\ todo' = <<>> /\ out' = <<>> /\ frames' = <<>> /\ pending' = <<>> /\ budget' = Budget
-          /\ imps' = <<>> /\ items' = <<>> /\ v2' = "V" /\ phase' = "header"
+          /\ imps' = <<>> /\ items' = <<>> /\ v2' = "V" /\ v3' = FALSE /\ phase' = "header"
 
 Next == Header \/ Step \/ Finish
 Spec == Init /\ [][Next]_vars
